@@ -3155,6 +3155,47 @@ def check_isolation(cases: list[tuple[str, str]], via: str) -> list[tuple[str, s
     return out
 
 
+def copy_canon(e: Any) -> dict:
+    """Everything of a definition a caller can change in place: canon_ent plus kv_order, value lists, helpers, base definitions."""
+    from srctools.fgd import EntityDef
+    c = canon_ent(e)
+    c['kv_order'] = list(e.kv_order)
+    c['value_lists'] = sorted((name, repr(sorted(tags)), repr(kv.val_list)) for name, tm in e.keyvalues.items() for tags, kv in tm.items())
+    c['helpers_repr'] = [repr(h) for h in e.helpers]
+    c['base_defs'] = [canon_ent(b) for b in e.bases if isinstance(b, EntityDef)]
+    return c
+
+
+def check_copy_isolation(key: str) -> list[tuple[str, str, str]]:
+    """deepcopy() of every entity of the generated FGD `key` (what engine_def / engine_dbase do with the cached definitions), every
+    applicable in-place change of the copy: the original must stay as it was.  Returns [(class, change, what differs)]."""
+    import copy
+    fgd = gen_fgd(random.Random(key), False)
+    out = []
+    for cn, e in fgd.entities.items():
+        before = copy_canon(e)
+        for how in ISOLATION_MUTATIONS + ['change-helper']:
+            d = copy.deepcopy(e)
+            if how == 'change-helper':
+                if not d.helpers:
+                    continue
+                h = d.helpers[0]
+                for attr in getattr(type(h), '__attrs_attrs__', ()):
+                    v = getattr(h, attr.name)
+                    if isinstance(v, list):
+                        v.append('c16')
+                    elif isinstance(v, str):
+                        setattr(h, attr.name, v + 'c16')
+                d.helpers.pop(0)
+            elif not mutate_answer(d, how):
+                continue
+            after = copy_canon(e)
+            if after != before:
+                out.append((cn, how, f'copy.deepcopy(EntityDef) then {how} on the copy changed {diff_fields(before, after)} of the original'))
+                before = after
+    return out
+
+
 def search_isolation(ck: Ck, names: list[str]) -> None:
     """State carried between calls: what engine_def() / engine_dbase() return belongs to the caller; changing it must not change what
     the next look-up or the whole database says (the lazily decoded definitions are cached inside the database objects)."""
@@ -3186,6 +3227,23 @@ def search_isolation(ck: Ck, names: list[str]) -> None:
                 alone = []
             ck.violation(f'lazy-answer-not-isolated:{via}:{how}', what,
                          {'kind': 'isolation', 'cases': [list(x) for x in (single if alone else cases)], 'via': via})
+    # the mechanism itself on generated definitions (value lists, tagged variants, helpers, resources: the bundled database has no
+    # value list at all): deepcopy, change the copy in place, the original must not move
+    reported: set[str] = set()
+    for i in range(ck.budget(25, 300)):
+        key = f'{ck.seed}:copy-isolation:{i}'
+        try:
+            found2 = check_copy_isolation(key)
+        except Exception as ex:   # noqa: BLE001
+            found2 = [('?', 'raises', f'copy.deepcopy / in-place change raises {type(ex).__name__}: {ex}')]
+        ck.count('search_copy_isolation')
+        ck.seen(('copyiso', key))
+        for cn, how, what in found2:
+            ck.hist('copy_isolation_found', how)
+            if how in reported:
+                continue
+            reported.add(how)
+            ck.violation(f'lazy-answer-not-isolated:deepcopy:{how}', f'{cn}: {what}', {'kind': 'copy_isolation', 'key': key, 'class': cn, 'change': how})
 
 # =============================================================================================== main
 def timed(label: str, fn: Callable[..., Any], *args: Any) -> Any:
@@ -3969,6 +4027,13 @@ def replay(data: dict) -> int:
         if not w2:
             print('every later answer and the whole database equal the first answers')
         return 1 if w2 else 0
+    if kind == 'copy_isolation':
+        found_c = check_copy_isolation(r['key'])
+        for cn, how, what in found_c:
+            print('VIOLATION', cn, how, ':', what)
+        if not found_c:
+            print('no in-place change of a deepcopy() reaches the original')
+        return 1 if found_c else 0
     if kind == 'helper_args':
         print(r['text'])
         found_h = check_helper_args([(n, list(a)) for n, a in r['items']])
